@@ -916,8 +916,8 @@ def obligations(tier):
                     if shape == "col" and dform != "list":
                         continue
                     obs.append(ob_schmidt_rank(d1, d2, r, dform, shape))
-    for (d1, d2) in [(2, 2)] + ([(2, 3), (3, 2)] if T else []):
-        for r in [1, 2]:
+    for (d1, d2) in [(2, 2), (2, 3), (3, 2)]:      # unequal local dimensions are where an index slip shows
+        for r in ([1, 2] if (T or d1 == d2) else [1]):
             for dform in (["list", "omitted"] if d1 == d2 else ["list"]):
                 obs.append(ob_operator_schmidt_rank(d1, d2, r, dform))
 
